@@ -137,6 +137,13 @@ func (hd *HeaderDirectives) StripRegularConditionals(header http.Header) {
 	hd.IfNoneMatch.SyncRemove(header)
 	hd.IfMatch.SyncRemove(header)
 
+	// Also in the forms that were not understood above (a date in one of the obsolete HTTP date
+	// formats, an empty first line): left in place they travel upstream, and a 304 the origin gives
+	// to the client's own validator would be taken for a revalidation of the stored response.
+	for _, name := range []string{"If-Modified-Since", "If-Unmodified-Since", "If-None-Match", "If-Match"} {
+		header.Del(name)
+	}
+
 	// We need to keep If-Range for Range requests
 }
 
